@@ -441,9 +441,9 @@ func (g *G) classes() []genClass {
 	case "C07":
 		return []genClass{{7, inval}, {2, urls}, {2, func(g *G, id string) *History { return g.genInvalRace(id) }}, {2, func(g *G, id string) *History { return g.genLocInval(id) }}, {1, func(g *G, id string) *History { return g.genHostOverride(id) }}}
 	case "C08":
-		return []genClass{{4, vary}, {2, grid}, {3, chain}, {2, inval}, {1, swrInval}, {1, func(g *G, id string) *History { return g.genRevalRace(id) }}, {1, func(g *G, id string) *History { return g.genMerge304(id) }}}
+		return []genClass{{4, vary}, {2, grid}, {3, chain}, {2, inval}, {1, swrInval}, {1, func(g *G, id string) *History { return g.genRevalRace(id) }}, {1, func(g *G, id string) *History { return g.genMerge304(id) }}, {1, func(g *G, id string) *History { return g.genVarySpelling(id) }}}
 	case "C19":
-		return []genClass{{3, vary}, {1, inval}, {2, func(g *G, id string) *History { return g.genRepeat(id) }}, {1, swrInval}}
+		return []genClass{{3, vary}, {1, inval}, {2, func(g *G, id string) *History { return g.genRepeat(id) }}, {1, swrInval}, {1, func(g *G, id string) *History { return g.genVarySpelling(id) }}}
 	case "C16":
 		return []genClass{{8, func(g *G, id string) *History { return g.genConcurrent(id) }}, {2, func(g *G, id string) *History { return g.genSWR(id) }}, {1, swrInval}}
 	case "C05":
